@@ -39,7 +39,7 @@ theorem popOne_mem {undo : List Tk} {t : Tk} (h : popOne undo = some t) : t ∈ 
 /-! ### loop-thread steps -/
 
 theorem TaskInv.execute {s : State} (h : TaskInv s) (lvl : Nat) (cb : Bool) :
-    TaskInv { s with undo := s.undo ++ [{ id := s.nextTask, lvl := lvl, cb := cb }], nextTask := s.nextTask + 1, pend := true } := by
+    TaskInv { s with undo := s.undo ++ [{ id := s.nextTask, lvl := lvl, cb := cb }], nextTask := s.nextTask + 1, pend := s.pend + 1 } := by
   have fresh : Fresh s s.nextTask :=
     ⟨fun hh => Nat.lt_irrefl _ (h.deadLt _ (Or.inl hh)),
      fun hh => Nat.lt_irrefl _ (h.deadLt _ (Or.inr (Or.inl hh))),
